@@ -13,7 +13,7 @@ RULE = ("programs: 1-3 worker tasks (open / data writes / parked reads / pending
 SIDE_LEMMAS = 3
 ASSUMPTIONS = ["tokio::sync::Mutex is FIFO-fair (modelled by `waiters`); a transport write either completes or fails (a peer that stops reading, so that a write blocks on back-pressure forever, is outside the model)",
                "transport faults are injected at burst boundaries in the correspondence runs; byte offsets inside a frame are covered by a separate stream that compares only outcomes (closed, shut, results), not the wire",
-               "open_stream's closed-check and registration are one atomic step in the model (the real code has two uncontended table-lock awaits in between: in that window a close makes the open fail with an error and leaves a stale table entry; no waiter is affected)",
+               "open_stream's closed-check and its id allocation / registration are separate steps in the model (hook point open.checked): a close() that runs in between leaves an entry in the drained tables, the open then fails on the closed flag (C09_concurrent_open_fails); the two uncontended table-lock awaits inside the registration are one step",
                "the forwarding task (process_stream_data) may miss the close notification and stay parked on its channel: a leaked task, not a blocked caller; not modelled",
                "the model is tied to session.rs by differential execution on explicit schedules (sampling)"]
 Case = Case
@@ -56,7 +56,7 @@ def gen_cases(tier, seed):
                 progs = [[], worker(r, 1, kinds[0]), worker(r, 2, kinds[1])]
                 killer = [tok] + (["B0", "W:2:77:ffff"] if follow else [])
                 progs.append(killer)
-                base = [1, 2] * (9 if tier == "quick" else 16)
+                base = [1, 2] * (10 if tier == "quick" else 17)
                 step = 1 if tier == "thorough" else 2
                 for pos in range(0, len(base) + 1, step):
                     sched = base[:pos] + [3] * len(killer) * 3 + base[pos:]
